@@ -11,7 +11,10 @@
 (*    Terminated, ExitOffset, AnywhereOffsets, Offsets                     *)
 (*    PatMatches / FilterMatches  (tiny pattern language)                  *)
 (*    Matches(M, scope, b), SitesOf(M, reg), AllSites, OrderAt             *)
-(*    SiteRequests / ExpectedPositions: placement through Listing!Edit     *)
+(*    ExpectedPositions: byte position of every marker in the edited       *)
+(*    listing (the insert-only instance of the listing semantics,          *)
+(*    DESIGN.md appendix D: ... last unit of a | pt(a,size) | pt(c,0) ...) *)
+(* The module is self-contained (standard + community modules only).       *)
 (*                                                                         *)
 (* Part 4 (generation): the space of small modules ("shapes").             *)
 (*                                                                         *)
@@ -26,7 +29,7 @@
 (* NeverAfterTerminator, OrderIsRegistrationOrder, AppliedEqualsSites.     *)
 (* Every terminal state (applied / refused) is emitted as a JSON case.     *)
 (***************************************************************************)
-EXTENDS G1Clauses, Json, TLC, TLCExt
+EXTENDS Sequences, SequencesExt, Naturals, Integers, FiniteSets, Functions, Json, TLC, TLCExt
 
 CONSTANTS Isas,         \* subset of {"x64","ia32","arm64"}
           MaxBlocks,    \* 1..4
@@ -38,6 +41,7 @@ CONSTANTS Isas,         \* subset of {"x64","ia32","arm64"}
           EntModes,     \* subset of {"first","all"}: entry blocks of a function
           EpChoices,    \* subset of 0..MaxBlocks: module entry point (0 = none)
           CfgModes,     \* subset of {"full","bare"}
+          AddrModes,    \* subset of BOOLEAN: byte intervals with / without addresses
           TgtChoices,   \* subset of 0..MaxBlocks: target of direct jumps (0 = extern proxy)
           ScopeKinds,   \* subset of {"allblocks","allfuncs","single"}
           Positions,    \* subset of {"ENTRY","EXIT","ANYWHERE"}
@@ -55,6 +59,30 @@ VARIABLES sp,        \* shape parameters
           phase,     \* "register" | "applied" | "refused"
           applied    \* sequence of [reg, u, off] in application order
 vars == <<sp, mod, passes, store, phase, applied>>
+
+(***************************************************************************)
+(* Part 0.  A state in the projection's format (harness/g1/project.py):    *)
+(*   st = [secs : seq of [name, blocks : seq of [u, k, p, n, units : seq   *)
+(*               of [o, n, k], fn, ent]],                                  *)
+(*         edges : seq of [s, t, ty], fns : seq, entry]                    *)
+(* u = block id, k = "code"/"data", p = position in the section, n = size, *)
+(* fn / ent = names of the functions the block belongs to / is entry of;   *)
+(* CFG nodes are <<"blk", section, p, n>> or <<"proxy"|..., name, 0, 0>>.  *)
+(***************************************************************************)
+Sum(s) == FoldLeft(LAMBDA a, b : a + b, 0, s)
+AllBlocks(st) == FlattenSeq([i \in 1..Len(st.secs) |-> st.secs[i].blocks])
+NoBlock == [u |-> 0, n |-> 0, k |-> "", units |-> <<>>, p |-> 0, fn |-> <<>>, ent |-> <<>>]
+BlockByU(st, u) ==
+  LET c == SelectSeq(AllBlocks(st), LAMBDA b : b.u = u)
+  IN  IF c = <<>> THEN NoBlock ELSE c[1]
+SecNameOf(st, u) ==
+  LET c == SelectSeq(st.secs, LAMBDA sec : \E j \in DOMAIN sec.blocks : sec.blocks[j].u = u)
+  IN  IF c = <<>> THEN "" ELSE c[1].name
+UnitStarts(b) == {b.units[i].o : i \in DOMAIN b.units} \cup {b.n}
+BlocksTile(st) ==
+  \A i \in DOMAIN st.secs :
+    LET bs == st.secs[i].blocks
+    IN  \A j \in 1..(Len(bs) - 1) : bs[j].p + bs[j].n <= bs[j + 1].p
 
 (***************************************************************************)
 (* Part 1.  The abstract module                                            *)
@@ -170,30 +198,25 @@ OrderAt(sites, u, off) ==
   SortSeq(SetToSeq({s.reg : s \in {x \in sites : x.u = u /\ x.off = off}}), LAMBDA a, b : a < b)
 Refused(M, regs) == ~M.hasfns /\ \E i \in DOMAIN regs : NeedsFunctions(regs[i].scope)
 
-\* Placement: one insertion request per site, handed to the listing semantics.
-\* A site needs [reg, u, off]; SiteReqId orders the requests of one location by
-\* registration id (Listing!EditItem sorts by id).
-SiteReqId(s) == s.reg * 100 + s.u
+\* Placement.  In the edited listing a marker sits at its anchor's original
+\* position shifted by the markers that precede it: those anchored in earlier
+\* blocks of the section (blocks in address order, zero-sized ones first), at smaller offsets of the same block, or at the same
+\* location with a smaller registration id (the end of a block precedes the
+\* start of the next one).  A site needs [reg, u, off].
 MarkerLen(isa) == IF isa = "arm64" THEN 4 ELSE 5
-MarkerPatch(mlen) ==
-  [units |-> <<[o |-> 0, n |-> mlen, k |-> "op", tg |-> "", tgb |-> "", by |-> [x \in 1..mlen |-> 0]]>>,
-   labels |-> <<>>, sx |-> <<>>, sxs |-> <<>>]
-\* reqs: sequence of [id, u, off]
-MarkerRequests(reqs, mlen) ==
-  [i \in 1..Len(reqs) |->
-     [id |-> reqs[i].id, op |-> "ins", u |-> reqs[i].u, off |-> reqs[i].off, len |-> 0,
-      proxy |-> FALSE, pk |-> "marker", patch |-> MarkerPatch(mlen)]]
-\* set of [id, s, p]: byte position of every marker in the edited listing
-MarkerPositions(st, reqs, mlen) ==
-  LET rq == MarkerRequests(reqs, mlen)
-  IN  UNION {LET L == Edit(st, rq, Flat(SecByName(st, nm)))
-                 P == PosSeq(L)
-             IN  {[id |-> L[i].rid, s |-> nm, p |-> P[i]] :
-                     i \in {k \in DOMAIN L : L[k].t = "unit" /\ L[k].src = "patch"}}
-             : nm \in SecNames(st)}
+BlockIdx(st, u) ==
+  LET bs == AllBlocks(st)
+      c == {i \in DOMAIN bs : bs[i].u = u}
+  IN  IF c = {} THEN 0 ELSE CHOOSE i \in c : TRUE
+SiteBefore(st, a, b) ==
+  /\ SecNameOf(st, a.u) = SecNameOf(st, b.u)
+  /\ \/ BlockIdx(st, a.u) < BlockIdx(st, b.u)
+         \/ (a.u = b.u /\ (a.off < b.off \/ (a.off = b.off /\ a.reg < b.reg)))
+SitePos(st, sites, x, mlen) ==
+  BlockByU(st, x.u).p + x.off + mlen * Cardinality({y \in sites : SiteBefore(st, y, x)})
+\* set of [reg, u, s, p]
 ExpectedPositions(st, sites, mlen) ==
-  LET ss == SetToSeq(sites)
-  IN  MarkerPositions(st, [i \in 1..Len(ss) |-> [id |-> SiteReqId(ss[i]), u |-> ss[i].u, off |-> ss[i].off]], mlen)
+  {[reg |-> x.reg, u |-> x.u, s |-> SecNameOf(st, x.u), p |-> SitePos(st, sites, x, mlen)] : x \in sites}
 
 (***************************************************************************)
 (* Part 4.  Shapes                                                         *)
@@ -209,12 +232,13 @@ TemplateUnits(tpl, i, tgt) ==
     [] tpl = "ret1"  -> << <<"ret">> >>
     [] tpl = "ijmp"  -> << <<"op", 2, 10 * i + 1>>, <<"ijmp">> >>
     [] tpl = "icall" -> << <<"op", 2, 10 * i + 1>>, <<"icall">> >>
+    [] tpl = "z0"    -> <<>>
     [] tpl = "d3"    -> << <<"d", 3, 10 * i + 1>> >>
     [] tpl = "d4"    -> << <<"d", 4, 10 * i + 1>> >>
 IsData(tpl) == tpl \in {"d3", "d4"}
 UsesTarget(tpl) == tpl \in {"jmp", "jmp1", "jcc", "call"}
 LastKind(tpl) ==
-  CASE tpl \in {"o1", "o23"} -> "op" [] tpl \in {"jmp", "jmp1"} -> "jmp" [] tpl \in {"d3", "d4"} -> "d" [] OTHER -> tpl
+  CASE tpl \in {"o1", "o23", "z0"} -> "op" [] tpl \in {"jmp", "jmp1"} -> "jmp" [] tpl \in {"d3", "d4"} -> "d" [] OTHER -> tpl
 LastKindOf(tpl) == IF tpl = "ret1" THEN "ret" ELSE LastKind(tpl)
 CanFallthrough(k) == k \in {"op", "jcc", "call", "icall"}
 
@@ -265,10 +289,10 @@ NameChoices(l) ==
 ParamsNb(nb) ==
   UNION {UNION {
       {[isa |-> isa, nb |-> nb, tpl |-> tpl, tgt |-> tg, layout |-> lf[1], fnt |-> lf[2],
-        n1 |-> nn[1], n2 |-> nn[2], ents |-> nn[3], ep |-> ep, cfg |-> cm] :
-          isa \in Isas, tg \in TgtValid(nb, tpl), ep \in EpValid(nb, tpl), nn \in NameChoices(lf[1]), cm \in CfgModes}
+        n1 |-> nn[1], n2 |-> nn[2], ents |-> nn[3], ep |-> ep, cfg |-> cm, addr |-> am] :
+          am \in AddrModes, isa \in Isas, tg \in TgtValid(nb, tpl), ep \in EpValid(nb, tpl), nn \in NameChoices(lf[1]), cm \in CfgModes}
       : lf \in LayoutFnt(nb)}
-    : tpl \in [1..nb -> Templates]}
+    : tpl \in {x \in [1..nb -> Templates] : Cardinality({i \in 1..nb : x[i] = "z0"}) <= 1}}
 ShapeParams == UNION {ParamsNb(nb) : nb \in 1..MaxBlocks}
 
 \* CFG: [src, dst (0 = a proxy), px (proxy name), ty, c, d]
@@ -296,6 +320,7 @@ RenderEdge(e) ==
 MkShape(p) ==
   LET es == EdgesOf(p) IN
   [isa |-> p.isa,
+   addresses |-> p.addr,
    fmt |-> IF p.isa = "ia32" THEN "pe" ELSE "elf",
    sections |-> <<[name |-> ".text",
                    blocks |-> [i \in 1..p.nb |->
@@ -318,10 +343,8 @@ ExpandUnits(isa, units) ==
   LET offs == UnitOffsets(isa, units)
       one(j) == LET un == units[j]
                 IN  IF un[1] = "d"
-                    THEN [x \in 1..UnitSize(isa, un) |->
-                            [o |-> offs[j - 1] + x - 1, n |-> 1, k |-> "data", tg |-> "", tgb |-> "", by |-> <<0>>]]
-                    ELSE <<[o |-> offs[j - 1], n |-> UnitSize(isa, un), k |-> un[1], tg |-> "", tgb |-> "",
-                            by |-> [x \in 1..UnitSize(isa, un) |-> 0]]>>
+                    THEN [x \in 1..UnitSize(isa, un) |-> [o |-> offs[j - 1] + x - 1, n |-> 1, k |-> "data"]]
+                    ELSE <<[o |-> offs[j - 1], n |-> UnitSize(isa, un), k |-> un[1]]>>
   IN  FlattenSeq([j \in 1..Len(units) |-> one(j)])
 
 AbsState(p) ==
@@ -332,17 +355,13 @@ AbsState(p) ==
       hasf(i) == bs[i].fn # ""
       blk(i) == [u |-> i, k |-> bs[i].kind, p |-> pos[i - 1], n |-> sizes[i],
                  units |-> ExpandUnits(p.isa, bs[i].units),
-                 ss |-> bs[i].syms, es |-> <<>>,
                  fn |-> IF hasf(i) THEN <<bs[i].fn>> ELSE <<>>,
-                 ent |-> IF hasf(i) /\ bs[i].entry THEN <<bs[i].fn>> ELSE <<>>,
-                 sx |-> <<>>, ann |-> <<>>, cfi |-> <<>>, al |-> 0, inside |-> TRUE]
+                 ent |-> IF hasf(i) /\ bs[i].entry THEN <<bs[i].fn>> ELSE <<>>]
       node(i, px) == IF i = 0 THEN <<"proxy", "P:" \o px, 0, 0>>
                      ELSE <<"blk", ".text", pos[i - 1], sizes[i]>>
       fnames == {bs[i].fn : i \in {k \in DOMAIN bs : hasf(k)}}
       es == EdgesOf(p)
-  IN  [secs |-> <<[name |-> ".text", size |-> pos[Len(bs)], blocks |-> [i \in 1..Len(bs) |-> blk(i)],
-                   iann |-> <<>>, sxout |-> <<>>]>>,
-       syms |-> <<>>,
+  IN  [secs |-> <<[name |-> ".text", blocks |-> [i \in 1..Len(bs) |-> blk(i)]]>>,
        fns |-> SetToSeq(fnames),
        edges |-> [i \in 1..Len(es) |->
                     [s |-> node(es[i].src, ""), t |-> node(es[i].dst, es[i].px), ty |-> es[i].ty]],
@@ -460,7 +479,7 @@ NeverAfterTerminator(M, regs, ap) ==
      IN  /\ ap[k].off \in AnywhereOffsets(M, b)
          /\ ap[k].off <= ExitOffset(M, b)
          /\ ap[k].off \in Offsets(M, pos, b)
-         /\ (Terminated(M, b) => ap[k].off <= b.units[Len(b.units)].o)
+         /\ (Terminated(M, b) /\ b.units # <<>> => ap[k].off <= b.units[Len(b.units)].o)
 
 \* same location => registration order (ids follow the passes), both in the
 \* sequence of applications and in the edited listing
@@ -477,8 +496,8 @@ OrderIsRegistrationOrder(M, regs, ap) ==
       \* ... and in the edited listing (evaluated when a location is shared)
       /\ shared =>
             LET exp == ExpectedPositions(AbsState(sp), sites, MarkerLen(sp.isa))
-                posOf(s) == (CHOOSE e \in exp : e.id = SiteReqId(s)).p
-            IN  /\ Cardinality(exp) = Cardinality(sites)
+                posOf(s) == (CHOOSE e \in exp : e.reg = s.reg /\ e.u = s.u).p
+            IN  /\ Cardinality({<<e.s, e.p>> : e \in exp}) = Cardinality(sites)
                 /\ \A s1, s2 \in sites :
                       (s1.u = s2.u /\ s1.off = s2.off /\ s1.reg < s2.reg) => posOf(s1) < posOf(s2)
 
